@@ -361,4 +361,122 @@ theorem LedgerOKx_of_LedgerOK (acct c : String) (hc : c ≠ "") : ∀ (ts : List
     rw [h2 k, hs]
     simp
 
+/-! ## rejection: a residual in a single commodity -/
+
+theorem maybePair_some (b : Amount String) (a1 a2 : SingleAmount String) (h : Amount.maybePair b = some (a1, a2)) :
+    b = [(a1.commodity, a1.value), (a2.commodity, a2.value)] := by
+  unfold Amount.maybePair at h
+  split at h
+  · simp only [Option.some.injEq, Prod.mk.injEq] at h
+    obtain ⟨h1, h2⟩ := h
+    subst h1; subst h2
+    rfl
+  · simp at h
+
+/-- `check_balance` rejects a balance whose only non-zero part is in one commodity `k0` -/
+theorem checkBalance_single_residual (date : Date) (ps : List (OutPosting String String)) (b : Amount String)
+    (k0 : String) (hwf : AMap.WF b) (h0 : Amount.getPart b k0 ≠ 0) (hothers : ∀ k, k ≠ k0 → Amount.getPart b k = 0) :
+    checkBalance (fun _ => none) date ps b = .err (.unbalanced (Amount.round (fun _ => none) b)) := by
+  have hwf' := Amount.WF_round (fun _ => none) b hwf
+  have hnz : (Amount.round (fun _ => none) b).isZero = false := by
+    cases hz : (Amount.round (fun _ => none) b).isZero with
+    | false => rfl
+    | true =>
+      have := (Amount.isZero_iff_getPart _ hwf').1 hz k0
+      rw [getPart_round_noPrec] at this
+      exact absurd this h0
+  have himp : impliedExchange (Amount.round (fun _ => none) b) = none := by
+    unfold impliedExchange
+    cases hp : (Amount.round (fun _ => none) b).maybePair with
+    | none => rfl
+    | some pr =>
+      obtain ⟨a1, a2⟩ := pr
+      have hb := maybePair_some _ a1 a2 hp
+      have hne : a1.commodity ≠ a2.commodity := by
+        have hw := hwf'
+        rw [hb] at hw
+        unfold AMap.WF AMap.keys at hw
+        simpa using hw
+      have hg1 : Amount.getPart b a1.commodity = a1.value := by
+        rw [← getPart_round_noPrec b a1.commodity, hb]
+        simp [Amount.getPart, AMap.get?]
+      have hg2 : Amount.getPart b a2.commodity = a2.value := by
+        rw [← getPart_round_noPrec b a2.commodity, hb]
+        simp [Amount.getPart, AMap.get?, hne]
+      simp only
+      split
+      · rename_i hc
+        obtain ⟨hv1, hv2, _⟩ := hc
+        have e1 : a1.commodity = k0 := by
+          apply Classical.byContradiction
+          intro hk
+          exact hv1 (by rw [← hg1]; exact hothers _ hk)
+        have e2 : a2.commodity = k0 := by
+          apply Classical.byContradiction
+          intro hk
+          exact hv2 (by rw [← hg2]; exact hothers _ hk)
+        exact absurd (e1.trans e2.symm) hne
+      · rfl
+  unfold checkBalance
+  simp only [hnz, himp]
+  simp
+
+/-- a transaction of the importers' shape whose contributions leave a residual in exactly one commodity is
+rejected as unbalanced -/
+theorem addTransactionSyntax_rejectx (acct c : String) (hc : c ≠ "") (ctx : Ctx) (bal : Balance String String)
+    (t : Transaction) (x : Rat) (hctx : CtxOK ctx) (hb : BalOK bal acct c x)
+    (hok : PostingsOKx acct c x t.posts) (k0 : String) (h0 : sumD k0 t.posts ≠ 0)
+    (hothers : ∀ k, k ≠ k0 → sumD k t.posts = 0) :
+    ∃ r, addTransactionSyntax ctx bal t = .err (.unbalanced r) := by
+  have hts0 : TSOKx (⟨[], none, [], bal, [], []⟩ : TxnState String String) (fun _ => 0) :=
+    ⟨rfl, AMap.WF_nil, fun _ => rfl⟩
+  obtain ⟨ctx', ts', hloop, hctx', hts', hb'⟩ :=
+    loopSyntax_okx t.date acct c hc t.posts ctx ⟨[], none, [], bal, [], []⟩ 0 x (fun _ => 0) hctx hts0 hb hok
+  have hprec : ctx'.prec = fun _ => none := by
+    funext k
+    simp [Ctx.prec, hctx'.formatting]
+  have hcb := checkBalance_single_residual t.date ts'.postings ts'.balance k0 hts'.wf
+    (by rw [hts'.val]; simpa using h0) (fun k hk => by rw [hts'.val, hothers k hk]; simp)
+  refine ⟨Amount.round (fun _ => none) ts'.balance, ?_⟩
+  unfold addTransactionSyntax
+  rw [hloop]
+  simp only [finishTxn, hts'.unfilled, hprec, hcb]
+
+/-- a ledger whose transactions are fine up to one that leaves a single-commodity residual is rejected, whatever
+follows -/
+theorem processFrom_rejectx (acct c : String) (hc : c ≠ "") :
+    ∀ (pre : List Transaction) (t : Transaction) (post : List Transaction) (st : ProcState) (i : Nat) (x : Rat),
+      CtxOK st.ctx → BalOK st.bal acct c x → LedgerOKx acct c x pre →
+      PostingsOKx acct c (ledgerX acct x pre) t.posts →
+      (∃ k0, sumD k0 t.posts ≠ 0 ∧ ∀ k, k ≠ k0 → sumD k t.posts = 0) →
+      ∃ r, processFrom st i ((pre ++ t :: post).map Entry.txn) = .err (i + pre.length, .unbalanced r) := by
+  intro pre
+  induction pre with
+  | nil =>
+    intro t post st i x hctx hb _ hok hres
+    obtain ⟨k0, h0, hothers⟩ := hres
+    obtain ⟨r, hr⟩ := addTransactionSyntax_rejectx acct c hc st.ctx st.bal t x hctx hb hok k0 h0 hothers
+    refine ⟨r, ?_⟩
+    simp only [List.nil_append, List.map_cons, processFrom, stepEntry, hr, List.length_nil, Nat.add_zero]
+  | cons p pre ih =>
+    intro t post st i x hctx hb hpre hok hres
+    obtain ⟨hp, hs, hrest⟩ := hpre
+    obtain ⟨ctx', r, hadd, hctx', hb'⟩ := addTransactionSyntax_okx acct c hc st.ctx st.bal p x hctx hb hp hs
+    obtain ⟨r', hr'⟩ :=
+      ih t post { ctx := ctx', bal := r.bal, txns := st.txns ++ [r.txn], events := st.events ++ r.events } (i + 1) _
+        hctx' hb' hrest hok hres
+    refine ⟨r', ?_⟩
+    simp only [List.cons_append, List.map_cons, processFrom, stepEntry, hadd, List.length_cons]
+    rw [hr']
+    congr 2
+    omega
+
+theorem process_rejectx (acct c : String) (hc : c ≠ "") (pre : List Transaction) (t : Transaction)
+    (post : List Transaction) (hpre : LedgerOKx acct c 0 pre) (hok : PostingsOKx acct c (ledgerX acct 0 pre) t.posts)
+    (hres : ∃ k0, sumD k0 t.posts ≠ 0 ∧ ∀ k, k ≠ k0 → sumD k t.posts = 0) :
+    ∃ r, process ((pre ++ t :: post).map Entry.txn) = .err (pre.length, .unbalanced r) := by
+  have hb0 : BalOK ([] : Balance String String) acct c 0 := ⟨AMap.WF_nil, rfl⟩
+  obtain ⟨r, h⟩ := processFrom_rejectx acct c hc pre t post {} 0 0 CtxOK.empty hb0 hpre hok hres
+  exact ⟨r, by simpa [process] using h⟩
+
 end Okane
